@@ -429,7 +429,7 @@ func (w *cbWorld) do(st cbStep) bool {
 		}
 		w.stepThread(w.ethr.th) // runs to the first scheduling point (pendingData.add already done for data)
 		return true
-	case "EChk", "ECas", "ERechk", "EUndo", "EHalf":
+	case "EChk", "EDrop", "ECas", "ERechk", "EUndo", "EHalf":
 		if w.ethr.th.pos == "idle" {
 			return false
 		}
